@@ -416,6 +416,24 @@ inductive SType where
 deriving Repr
 
 mutual
+/-- structural equality of denoted types (no `DecidableEq` deriving for nested inductives) -/
+def SType.same : SType → SType → Bool
+  | .basic a, .basic b => a = b
+  | .other a, .other b => a = b
+  | .ptr a, .ptr b => a.same b
+  | .slice a, .slice b => a.same b
+  | .array k a, .array l b => k = l && a.same b
+  | .map a b, .map c d => a.same c && b.same d
+  | .named p n ts, .named q m us => p = q && n = m && SType.sameL ts us
+  | .func ps v rs, .func qs w ss => SType.sameL ps qs && v = w && SType.sameL rs ss
+  | _, _ => false
+def SType.sameL : List SType → List SType → Bool
+  | [], [] => true
+  | a :: as, b :: bs => a.same b && SType.sameL as bs
+  | _, _ => false
+end
+
+mutual
 def sem : GoType → SType
   | .basic n => .basic n
   | .other s => .other s
